@@ -27,9 +27,9 @@ m = {
     "setup_cmd": "./setup.sh",
     "hooks": {
         "guard": "verif",
-        "enable": "go build -tags verif (the harness is always built with the tag; one hook file, /repo/verif_hooks.go: VerifRawReads drives the scanner's unexported readByteRaw for the C12 refill correspondence)",
+        "enable": "go build -tags verif (the harness is always built with the tag; two hook files: /repo/verif_hooks.go - VerifRawReads drives the scanner's unexported readByteRaw for the C12 refill correspondence - and /repo/type1/verif_hooks.go - VerifEexecWriter and VerifHexWriter drive the unexported eexec and hex stream writers for the C13/C08 writer correspondence)",
         "baseline_off_cmd": "cd /repo && go test -json -vet=off -count=1 -timeout 25m ./...",
-        "source_commits": ["486b693"],
+        "source_commits": ["486b693", "3c1e3e5"],
         "add_only": True,
     },
     "engines": [
